@@ -158,6 +158,14 @@ pub fn closure_self_weak(o: u32) -> bool {
     }
 }
 
+/// Random mode only: should this trace callback try to clone one of its Weak fields?
+pub fn on_trace_probe(_o: u32) -> bool {
+    if mode() != 2 || std::thread::panicking() {
+        return false;
+    }
+    with_random(|r| r.cfg.weak && r.cfg.max_faults > 0 && r.faults < r.cfg.max_faults && r.rng.gen_bool(0.04)).unwrap_or(false)
+}
+
 pub fn next_in_cb<P: Pad>(kind: CbKind, o: u32) -> Decision {
     match mode() {
         1 => {
